@@ -145,6 +145,15 @@ def run(seed, tier, driver):
                 res.fail('C04', 'framing violation not answered with NOTIFICATION(1,%d) + close' % sub,
                          {'state': state, 'stream': stream.hex(), 'outs': outs, 'final': final},
                          key='framing-reaction')
+        # a message whose length contradicts its type (RFC 4271 6.1: KEEPALIVE other than 19 octets, OPEN below 29): Bad
+        # Message Length, like a length outside 19..4096
+        if items and items[0][0] == 'msg' and ((items[0][1] == 4 and items[0][2]) or (items[0][1] == 1 and len(items[0][2]) < 10)):
+            ws = [o for o in outs if o[0] == 'write']
+            ok = (len(ws) == 1 and bytes.fromhex(ws[0][2])[18:21] == b'\x03\x01\x02' and ['lose', 0] in outs and final['state'] == 'IDLE')
+            if not ok:
+                res.fail('C04', 'a %s whose length contradicts its type was not answered with NOTIFICATION(1,2) + close' % (
+                    'KEEPALIVE' if items[0][1] == 4 else 'OPEN'),
+                         {'state': state, 'stream': stream.hex(), 'outs': outs[:4], 'final': final}, key='framing-reaction')
         # the converse: a stream in which the reference deframer finds no framing violation (and no message whose own
         # length contradicts its type: a KEEPALIVE with a body, an OPEN shorter than its fixed part) must not be answered
         # with a Message Header Error - every message of it was extracted
